@@ -160,6 +160,41 @@ theorem override_wins (defaults : Params) (k v : Nat) (hk : hasKey defaults k = 
   intro k' hk'
   exact lookup_setKey_other _ _ _ _ hk'
 
+/-- the fold behind `params.update(model_params)`: after any list of overrides whose keys are all
+    known, a key holds the *last* value given for it, or its previous value if none was given -/
+theorem fold_setKey_lookup : ∀ (user acc : Params), (∀ kv ∈ user, hasKey acc kv.1 = true) → ∀ k,
+    (user.foldl (fun acc kv => setKey acc kv.1 kv.2) acc).lookup k =
+      (user.reverse.lookup k).or (acc.lookup k) := by
+  intro user
+  induction user with
+  | nil => intro acc _ k; simp
+  | cons kv rest ih =>
+    intro acc h k
+    simp only [List.foldl_cons, List.reverse_cons, List.lookup_append]
+    rw [ih (setKey acc kv.1 kv.2) (fun x hx => by rw [hasKey_setKey]; exact h x (List.mem_cons_of_mem _ hx)) k]
+    have hkv := h kv (List.mem_cons_self ..)
+    cases hr : rest.reverse.lookup k with
+    | some v => simp
+    | none =>
+      simp only [Option.none_or]
+      by_cases hk : k = kv.1
+      · subst hk; rw [lookup_setKey_same _ _ _ hkv]; simp [List.lookup]
+      · rw [lookup_setKey_other _ _ _ _ hk]
+        have hb : (k == kv.1) = false := by simp [hk]
+        simp [List.lookup, hb]
+
+/-- C14 ("class defaults overridden by user-supplied values"), for any number of overrides: when every
+    user key is a known model parameter the instance's dict holds, for each key, the last value the
+    user gave for it and the class default otherwise -/
+theorem overrides_win (defaults user : Params) (h : ∀ kv ∈ user, hasKey defaults kv.1 = true) :
+    ∃ p, mkParams defaults user = some p ∧
+      ∀ k, p.lookup k = (user.reverse.lookup k).or (defaults.lookup k) := by
+  refine ⟨user.foldl (fun acc kv => setKey acc kv.1 kv.2) defaults, ?_, fold_setKey_lookup user defaults h⟩
+  have : user.all (fun kv => hasKey defaults kv.1) = true := List.all_eq_true.mpr h
+  simp [mkParams, this]
+
+example : mkParams [(1, 10), (2, 20), (3, 30)] [(2, 99), (3, 7), (2, 5)] = some [(1, 10), (2, 5), (3, 7)] := by decide
+
 /-- no user parameters: the instance gets exactly the class defaults -/
 theorem defaults_when_no_overrides (defaults : Params) : mkParams defaults [] = some defaults := by
   simp [mkParams]
